@@ -54,6 +54,11 @@ def gen(rng):
             steps.append(['h', tdir_ + '/files/' + nm_ + '.hl', src_])
             pv_ = [s_ for s_ in steps if s_[1] == tdir_ + '/info/' + nm_ + '.trashinfo'][0][2]
             steps.append(['f', tdir_ + '/info/' + nm_ + '.hl.trashinfo', pv_.replace('\nDeletionDate', '.hl\nDeletionDate', 1), 0o600])
+    if rng.random() < 0.004:
+        # a trashed tree nested deeper than the interpreter's recursion limit (an unpacked archive bomb, a runaway mkdir loop)
+        tdir_ = locs[0][0]
+        G.add_trashed(steps, tdir_, 'entabyss', TG.pct(L['home'] + '/w/entabyss'), '2011-01-01T00:00:00', 'dir', tag='abyss')
+        steps.append(['d', tdir_ + '/files/entabyss' + '/d' * 1100, 0o755])
     extra = L['home'] + '/othertrash'
     if rng.random() < 0.3:
         G.add_trashed(steps, extra, 'x1', TG.pct(L['home'] + '/w/x1'), '2019-05-05T05:05:05', 'file', tag='x')
@@ -173,7 +178,7 @@ def check(sim, case, st):
                 break
             for p in pset - top_removed:
                 if p in snap0:
-                    res.append(('C14/dry-run-printed-not-removed' + ('/info-is-a-link-to-another-info' if '_alias' in p else ''), '--dry-run printed %r, which exists, but the real run does not remove it (argv %r, real exit %s, stderr %s)'
+                    res.append(('C14/dry-run-printed-not-removed' + ('/info-is-a-link-to-another-info' if '_alias' in p else '/payload-deeper-than-the-recursion-limit' if '/entabyss' in p else ''), '--dry-run printed %r, which exists, but the real run does not remove it (argv %r, real exit %s, stderr %s)'
                                 % (p, argv, r2.exit, r2.errs[-300:])))
                     break
                 else:
